@@ -478,7 +478,7 @@ def run(pid, tier, seed, replay=None):
         mod, cfg = mc_text("S_cc", True)
         sc.write("S_cc.tla", mod)
         jobs.append(("S_cc", sc, "S_cc", cfg + "INIT Init\nNEXT Next\n", dict(timeout=1800, simulate=dict(
-            num=700 if thorough else 200, depth=30 if thorough else 18, seed=rng.randrange(1, 2**31), file=sc.path("sim/S_cc")))))
+            num=450 if thorough else 200, depth=30 if thorough else 18, seed=rng.randrange(1, 2**31), file=sc.path("sim/S_cc")))))
         res = tlc.run_many(jobs, parallel=4)
         for nm, r in res.items():
             tlc.must_pass(r, nm)
@@ -496,8 +496,9 @@ def run(pid, tier, seed, replay=None):
                           {"trace": tlc.error_trace(res["MC_cc"])})
         nodes, edges, inits = tlc.read_dot(sc.path("G_cc.dot"))
         ps, _ = paths.edge_cover(nodes, edges, inits, rng=rng, merge=True)
-        if not thorough and len(ps) > 500:
-            ps = rng.sample(ps, 500)
+        cap = 1500 if thorough else 500
+        if len(ps) > cap:
+            ps = rng.sample(ps, cap)
         behs = [("state-graph edge cover", [nodes[i] for i in p]) for p in ps]
         behs += [("simulate", [s for _a, s in b]) for b in tlc.read_sim_traces(sc.path("sim"), "S_cc")]
         behs = [b for b in behs if any(s["op"]["name"] == "Call" and s["op"]["compare"] for s in b[1][1:])]
@@ -514,7 +515,7 @@ def run(pid, tier, seed, replay=None):
                    ("Ordinary", 1, 0.0, False, ("nearby",)), ("Ordinary", 2, 0.3, False, ("nearby",))]
     for ci, (variant, dim, nugget, big, opts) in enumerate(combos):
         n = 6
-        sub = behs if thorough else behs[ci % 2::2]
+        sub = behs[ci % 3::3] if thorough else behs[ci % 2::2]
         if "stable" in opts:        # spectral sampling of the Stable model is slow (MCMC): fewer behaviours,
             # first those in which ONLY the shape parameter changes (model tokens 1 <-> 2) before a compared call
             def shape_only(b):
